@@ -160,7 +160,7 @@ def run(ctx):
         "stack bound checked on the ASan build (frames larger than the shipped -O2 build): <= %d bytes" % STACK_MAX,
     ]
     bad = common.forbidden_scan()
-    cres = common.coq_properties([PID, "C01_parser", "C01_xmlsize"])
+    cres = common.coq_properties([PID, "C01_parser", "C01_xmlsize", "C01_conv"])
     common.proof_coverage(ctx, cres)
     proof_broken = (not cres["ok"]) or bool(bad)
 
@@ -204,8 +204,24 @@ def run(ctx):
         if b:
             viol.append({"input": line, "kind": kind, "clauses": b, "answer": a})
     crash_info = (lcr + hcr)[:3]
+    # ---- tie of the concrete conversion model (Model/ConvConcrete.v: parser + tree builder + XML generator under the
+    #      option tuple) to wbxml_conv_wbxml2xml_run: status, length, NUL terminator and the exact output bytes
+    conv = None
+    if not getattr(ctx, "replay", None):
+        try:
+            from vlib import convmodel
+            conv = convmodel.correspond(ctx.seed, quick)
+        except common.BuildError:
+            raise
+        except ImportError:
+            pass
+    if conv is not None:
+        ctx.coverage["conversion_model_tie"] = {k: conv[k] for k in ("evaluations", "soft", "accepted_by_c", "distribution") if k in conv}
+        ctx.coverage["conversion_model_tie"]["disagreements"] = len(conv.get("disagreements", []))
+        for c in (conv.get("crashes") or [])[:3]:
+            viol.append({"input": str(c.get("input", c))[:4000], "kind": "conversion-tie-crash", "clauses": ["crash / sanitizer report in wbxml_conv_wbxml2xml_run"], "answer": str(c)[:1500]})
     ctx.coverage.update({
-        "evaluations": len(cases), "distinct_nontrivial": len(nontrivial),
+        "evaluations": len(cases) + (conv["evaluations"] if conv else 0), "distinct_nontrivial": len(nontrivial),
         "rule": "documents = project corpus converted by the library + mutations (truncation, flips, huge length/index fields, duplication, "
                 "inserted global tokens) + every prefix of sampled documents + random bytes + nesting at L-1..L+2 and far beyond + width "
                 "+ string-table blow-up + indent*depth around 256, each under random option tuples (29 forced languages + none, charset "
@@ -216,7 +232,11 @@ def run(ctx):
     })
     for v in viol[:6]:
         ctx.violation("c-" + v["clauses"][0][:40], {"replay_cmd": "bin/check C01 --replay <this file>", "sanitizer": crash_info, **v})
+    if not viol and conv is not None and conv.get("disagreements"):
+        ctx.violation("conversion-correspondence-broken", {"broken": "Model/ConvConcrete.v and wbxml_conv_wbxml2xml_run disagree on status, length or output bytes; the sanitizer-backed exploration found no input violating the property's own clauses",
+                                                            "first_cases": [{k: str(v)[:1500] for k, v in d.items()} for d in conv["disagreements"][:3]],
+                                                            "replay_cmd": "python3 -m vlib.convmodel"}, found_input=False)
     if not viol and proof_broken:
-        ctx.violation("proof-broken", {"broken": "Properties_C01.v / Properties_C01_parser.v no longer check", "failed_theorems": cres["failed"],
+        ctx.violation("proof-broken", {"broken": "Properties_C01.v / Properties_C01_parser.v / Properties_C01_xmlsize.v / Properties_C01_conv.v no longer check", "failed_theorems": cres["failed"],
                                        "broken_at": cres.get("broken_at"), "forbidden": bad, "log_tail": cres["log"][-3000:],
                                        "search": "sanitizer-backed exploration of %d cases found no failing input" % len(cases)}, found_input=False)
